@@ -223,7 +223,11 @@ macro_rules! impl_derivatives {
 
             #[inline]
             fn atan2(&self, other: Self) -> Self {
-                let mut res = (self / other.clone()).atan();
+                let mut res = if other.re().abs() < self.re().abs() {
+                    -(&other / self).atan()
+                } else {
+                    (self / &other).atan()
+                };
                 res.re = self.re.atan2(other.re);
                 res
             }
